@@ -303,6 +303,11 @@ pub const CORPUS: &[&str] = &[
     // extremal move lists: 16 mobile men plus two en-passant capturers = 18 entries (ArrayVec capacity)
     "4k3/8/8/2PpP3/P6P/3P4/1P3PP1/RNBQKBNR w KQ d6 0 1",
     "rnbqkbnr/1p3pp1/3p4/p6p/2pPp3/8/8/4K3 b kq d3 0 1",
+    // ... with castling available on top (a king entry that also carries castling destinations must stay ONE entry)
+    "6k1/8/8/2PpP3/P4NP1/2NQ4/1P1BBPPP/R3K2R w KQ d6 0 1",
+    "6k1/8/8/2PpP3/P4NP1/2NQ4/1P1BBPPP/R3K2R w K d6 0 1",
+    "r3k2r/1p1bbppp/2nq4/p4np1/2pPp3/8/8/6K1 b kq d3 0 1",
+    "r3k2r/1p1bbppp/2nq4/p4np1/2pPp3/8/8/6K1 b q d3 0 1",
     "r1bqkbnr/p1pp1ppp/1pn5/4p3/2B1P3/5Q2/PPPP1PPP/RNB1K1NR w KQkq - 0 4",
     "R6R/3Q4/1Q4Q1/4Q3/2Q4Q/Q4Q2/pp1Q4/kBNN1KB1 w - - 0 1",
 ];
